@@ -133,7 +133,7 @@ func (c *cClient) learn(w *world, op *opSpec, res *nfsv4.Compound4res, inf *infl
 	if c.idx >= len(w.clients) || w.clients[c.idx] != c {
 		return // ghost client of the final probe
 	}
-	mi := len(inf.pre)
+	mi := mainIndex(op)
 	if op.Kind == kRemove || op.Kind == kLookup || op.Kind == kPutfh {
 		return
 	}
@@ -307,6 +307,7 @@ type profile struct {
 	parkPct    int // chance (percent) that a parkable request is parked
 	sharedLO   bool
 	warmPct    int
+	confirmPct int
 	warmOpen   bool
 	nontrivial func(ev, labels map[string]int) bool
 }
@@ -383,7 +384,14 @@ func (w *world) step() {
 		if op == nil {
 			// Infeasible for this client right now: fall back to
 			// something that makes progress.
-			act = pick(w, "fallback", []string{kOpen, kOpen, kSetclientid, kSetclientidConfirm, kRenew, kLookup})
+			switch {
+			case c.confirmed == 0 && (c.cid == 0 || attempt > 1):
+				act = kSetclientid
+			case c.confirmed == 0:
+				act = kSetclientidConfirm
+			default:
+				act = pick(w, "fallback", []string{kOpen, kOpen, kOpen, kRenew, kLookup})
+			}
 			continue
 		}
 		if oo := w.targetOO(op); oo != nil && oo.txn && oo.waiters > 0 {
@@ -396,7 +404,28 @@ func (w *world) step() {
 		}
 		w.noteSent(c, op)
 		w.issue(c, op)
+		w.followUp(c, op)
 		return
+	}
+}
+
+// followUp is what a protocol-following client does right after an OPEN
+// that asks for confirmation: it sends OPEN_CONFIRM (usually).
+func (w *world) followUp(c *cClient, op *opSpec) {
+	if op.Kind != kOpen || op.Note != "" || op.Retx != 0 {
+		return
+	}
+	o := c.owner(op.Owner)
+	if o == nil || o.busy > 0 {
+		return
+	}
+	for _, co := range o.opens {
+		if co.unconf && co.name == op.Name && w.pct(w.prof.confirmPct, "autoConfirm") {
+			cf := &opSpec{Kind: kOpenConfirm, FH: co.fh, Owner: o.key, Seq: nextSeq(o.seq), Stateid: co.sid}
+			w.noteSent(c, cf)
+			w.issue(c, cf)
+			return
+		}
 	}
 }
 
@@ -530,7 +559,16 @@ func (w *world) genOp(c *cClient, kind string) *opSpec {
 		op := &opSpec{Kind: kOpen, ClientID: c.useCID(), FH: "root", Owner: o.key, Seq: nextSeq(o.seq)}
 		op.Name = pick(w, "name", fileNames)
 		op.Access = uint32(pick(w, "access", []int{1, 2, 3, 3}))
-		op.How = pick(w, "how", []string{"nocreate", "nocreate", "unchecked", "unchecked", "unchecked", "unchecked_trunc", "unchecked_size3", "guarded", "guarded_size3", "exclusive"})
+		op.How = pick(w, "how", []string{"nocreate", "unchecked", "unchecked", "unchecked", "unchecked", "unchecked", "unchecked_trunc", "unchecked_size3", "guarded", "guarded_size3", "exclusive"})
+		if len(o.opens) > 0 && w.pct(45, "reopen") {
+			// Open a file this owner already has open: upgrade.
+			co := pick(w, "reopen", o.opens)
+			op.Name = co.name
+			op.How = pick(w, "how", []string{"nocreate", "unchecked", "unchecked_trunc"})
+			if co.access != 3 && w.pct(70, "upgrade") {
+				op.Access = 3 &^ co.access
+			}
+		}
 		if w.pct(w.prof.parkPct, "park") {
 			op.Park = pick(w, "parkAt", []string{parkOpenBefore, parkOpenAfter, parkOpenAfter})
 		}
